@@ -208,6 +208,8 @@ def check(chk: Check) -> None:
     jobs = [(role, s_) for role in ROLES for s_ in sizes]
     total_states = 0
     for res in pmap(_explore_job, jobs, min_parallel=4):
+        if res is None:
+            continue
         total_states += res["states"]
         chk.paths += res["transitions"]
         role, s_ = res["role"], res["size"]
@@ -223,8 +225,8 @@ def check(chk: Check) -> None:
         + ["pyjelly.parse.lookup.LookupDecoder.assign_entry", "pyjelly.parse.lookup.LookupDecoder.at"]
         + [f"pyjelly.parse.lookup.LookupDecoder.{r}" for _w, r, _e in ROLES.values()]
     )
-    _disabled(chk)
-    _lru(chk)
+    chk.part("disabled", lambda: _disabled(chk))
+    chk.part("lru", lambda: _lru(chk))
 
 
 def _disabled(chk: Check) -> None:
